@@ -225,6 +225,9 @@ class Interp:
             e.sym_args = tuple(args)
             return e
         if not has_sym(list(args)) and not has_sym(list(kw.values())):
+            mod = getattr(fn, '__module__', None) or getattr(getattr(fn, '__self__', None), '__module__', None) or ''
+            if mod.split('.')[0] in REAL_IO_MODULES or (isinstance(fn, type) and fn.__module__.split('.')[0] in REAL_IO_MODULES):
+                raise Unsupported(f'call into {mod}.{getattr(fn, "__name__", fn)}: real I/O is not performed by the interpreter (no stub)')
             try:
                 return fn(*args, **kw)
             except Exception as e:
@@ -312,6 +315,7 @@ class Interp:
 
 
 FUNCS_SEEN = {}
+REAL_IO_MODULES = {'os', 'posix', 'nt', 'shutil', 'subprocess', 'pathlib', 'tempfile', 'socket', 'glob', 'fcntl', 'mmap', 'signal', 'ctypes', 'urllib', 'http', 'requests'}
 
 
 def function_ast(fn):
